@@ -146,8 +146,64 @@ def decCli (j : Json) : Except String CliArgs := do
     includeBy := ← r "include_by", excludeBy := ← r "exclude_by",
     excludeDeprecated := ← asBool (j.getD "exclude_deprecated" (.bool false)) }
 
+def decHOp (j : Json) : Except String HOp := do
+  match j.get? "op" with
+  | some (.str "derive") => return .derive (← asNat (← field j "p")) (← decCall (← field j "call"))
+  | some (.str "share") => return .share (← asNat (← field j "p"))
+  | some (.str "resolve") => return .resolve (← asNat (← field j "l")) (← asNat (← field j "f"))
+  | some (.str "adopt") => return .adopt (← decCli (← field j "cli"))
+  | _ => .error "bad history op"
+
+def decVariant : Json → Except String Variant
+  | .str "asFound" => .ok .asFound
+  | .str "repaired" => .ok .repaired
+  | _ => .error "bad variant"
+
+/-- every object of a history state: what it offers and reports (heap semantics) next to what the value semantics
+    (specification) says it must offer; `gql`: the GraphQL selection code (names only, no links) -/
+def observeObjs (gql : Bool) (rx : Rx) (doc : Doc) (s : HState) (vals : List FilterSet) : List (String × Json) :=
+  if gql then
+    [("objs", .arr (s.values.map fun fs =>
+        let st := gqlStatistic rx fs doc
+        jobj [("all", gqlLabels (gqlAllOperations rx fs doc)),
+              ("stat_asFound", .arr [jnat st.1, jnat st.2, jnat 0, jnat 0]),
+              ("stat_repaired", .arr [jnat st.1, jnat st.2, jnat 0, jnat 0])])),
+     ("spec", .arr (vals.map fun fs => gqlLabels (gqlOffered rx fs doc)))]
+  else
+    [("objs", .arr (s.values.map fun fs => jobj [
+        ("all", labels (getAllOperations rx fs doc)),
+        ("stat_asFound", encStat (measureStatistic .asFound rx fs doc)),
+        ("stat_repaired", encStat (measureStatistic .repaired rx fs doc))])),
+     ("spec", .arr (vals.map fun fs => labels (offered rx fs doc)))]
+
+/-- a history step by step: model = `hstep` (variant `v`), specification = `vstep .repaired` -/
+def runHistory (gql : Bool) (v : Variant) (rx : Rx) (doc : Doc) : HState → List FilterSet → List HOp → List Json
+  | _, _, [] => []
+  | s, vals, op :: rest =>
+    let r := hstep v s op
+    let vals' := vstep .repaired vals op
+    let err := match r.2 with
+      | some e => encErr e
+      | none => Json.null
+    let specErr := match vstepErr vals op with
+      | some e => encErr e
+      | none => Json.null
+    jobj ([("err", err), ("spec_err", specErr)] ++ observeObjs gql rx doc r.1 vals')
+      :: runHistory gql v rx doc r.1 vals' rest
+
 def handle : Handler := fun op a => do
   match op with
+  | "history" =>
+    -- {rx, ops, roots, variant, histories:[[step…]…]} → per history, per step: refusal + every object's observables
+    let rx ← decRx (← field a "rx")
+    let doc ← asList decOp (← field a "ops")
+    let n ← asNat (← field a "roots")
+    let v ← decVariant (← field a "variant")
+    let gql ← asBool (a.getD "gql" (.bool false))
+    let hs ← asArr (← field a "histories")
+    return .arr (← hs.mapM fun j => do
+      let steps ← asList decHOp j
+      return .arr (runHistory gql v rx doc (HState.roots n) (List.replicate n FilterSet.empty) steps))
   | "tables" =>
     return jobj [("http_methods", .arr (httpMethods.map jstr))]
   | "run" =>
